@@ -368,10 +368,50 @@ def r134(ck, prog):
     ck.floor("R13.6", "can_be_casted_to sites with a determinable role", nd, 40)
     r137(ck, prog)
     r138(ck, prog)
+    r1310(ck, prog)
     # diagnostics are filed under the file being walked: the include stack is a stack and is balanced
     from .c05 import file_stack_rule
     ck.rule("R13.9", "diagnostics are attributed to the file being walked (include stack balanced, a real stack)")
     file_stack_rule(ck, prog, "R13.9")
+
+
+def r1310(ck, prog):
+    """the subclass test behind record casts looks at every ancestor: each loop of Record::is_subclass_of is left only
+    when its iterator / work list is exhausted or with the answer `true` (a `break` on an already visited class makes a
+    diamond `class Both : Tag, Left, Right` stop before it reaches Tag: false "incompatible type" diagnostics)"""
+    ck.rule("R13.10", "is_subclass_of examines every ancestor before answering false")
+    b = prog.body("ide::symbol_map::record::Record::is_subclass_of")
+    ck.anchor(b is not None, "Record::is_subclass_of not found")
+    tests = brackets.option_tests(b, prog)
+    n = 0
+    for h, bl in cfg.loops(b):
+        inl = set(bl)
+        for u in bl:
+            for v in b.succ(u):
+                if v in inl or b.is_cleanup(v) or b.term(v)["k"] == "unreachable":
+                    continue
+                n += 1
+                exhausted = any(t["bb"] == u and t["none_target"] == v and
+                                re.search(r"Iterator>::next$|::pop$|::pop_front$|::pop_back$", t["src_callee"] or "") for t in tests)
+                only_true = True
+                for pth in paths.enum_paths(b, prog, start=v, limit=4000):
+                    if pth.end not in ("return",):
+                        if pth.end == "loop":
+                            continue
+                        only_true = False
+                        continue
+                    d = paths.describe_result(prog, pth.ret)
+                    if not (d[0] == "const" and str(d[1]) == "true"):
+                        only_true = False
+                ck.ob("R13.10", "loop-exit:%d" % n, exhausted or only_true,
+                      "the loop is left %s" % ("when its work list is exhausted" if exhausted else "with the answer true"),
+                      msg="Record::is_subclass_of leaves its walk over the ancestors early without the answer `true` [%s]: "
+                          "ancestors that have not been looked at yet are never examined, so a subclass value is reported as "
+                          "incompatible with its base class" % b.where(u))
+    rec = [i for i, t in b.calls() if Body.callee(t) == b.path]
+    ck.ob("R13.10", "walks-ancestors", bool(rec) or n > 0, "the function recurses into / iterates over the parents",
+          msg="Record::is_subclass_of neither recurses nor loops over the parents", nontrivial=False)
+    ck.floor("R13.10", "loop exits of is_subclass_of", n, 2)
 
 
 def r138(ck, prog):
